@@ -559,6 +559,12 @@ def add_full_key(lib, m, xml, seed):
     a.append('mpos="%s"' % fmt(np.round(rng.uniform(-1, 1, 3 * m.nmocap), 3)))
     q = rng.normal(size=(m.nmocap, 4))
     q /= np.linalg.norm(q, axis=1, keepdims=True)
+    # half of the time: the conjugate of the body's own quaternion (same w, opposite vector part) - a keyframe value
+    # that differs from the model value in some components only
+    for b in range(m.nbody):
+      k = int(m.body_mocapid[b])
+      if k >= 0 and rng.rand() < 0.5:
+        q[k] = np.asarray(m.body_quat[b]) * [1, -1, -1, -1]
     a.append('mquat="%s"' % fmt(q.ravel()))
   key = '<key %s/>' % ' '.join(a)
   if '</keyframe>' in xml:
